@@ -9,7 +9,7 @@ package bindnode
 // assumed (in /verif/contracts/external) to write nothing.
 //@ sweep[C20] assigns nothing: _node, _nodeRepr, _prototype, _prototypeRepr, Wrap(), Prototype(), Unwrap(),
 //@   inferSchema(), applyOptions(), fieldNameFromSchema(), newNode(), nonPtrVal(), ptrVal(), nonPtrType(),
-//@   unionMember(), reprNode(), reprStrategy(), outboundMappedKey(), inboundMappedKey(), outboundMappedType(), inboundMappedType()
+//@   unionMember(), reprNode(), reprStrategy(), outboundMappedKey(), outboundMappedType(), inboundMappedType()
 // A builder is a root slot (the interface-level contract of NewBuilder, restated for the concrete call).
 //@ func buildListpairsField(key, value) (r, err)
 //@   assigns[C20] nothing
@@ -122,3 +122,13 @@ package bindnode
 //@   nosafety
 //@   requires w != nil && w.schemaType != nil
 //@   ensures[C09] mtyp == nil ==> dyntype(va, "_errorAssembler") && unbox(va, "_errorAssembler").err != nil
+
+// Representation level, struct as map with renames: a key that is not the representation key of any
+// field must not be turned into the name of a field (so that the struct assembler rejects it).
+//@ pure func repkey(stg schema.StructRepresentation_Map, f schema.StructField) string = indom(stg.renames, f.name) ? stg.renames[f.name] : f.name
+//@ func inboundMappedKey(typ, stg, key) (r)
+//@   nosafety
+//@   requires typ != nil
+//@   ensures[C09] (exists j mathint :: 0 <= j && j < len(typ.fields) && repkey(stg, typ.fields[j]) == key) || (forall j mathint :: 0 <= j && j < len(typ.fields) ==> typ.fields[j].name != r)
+//@   loop 0 invariant 0 - 1 <= rangeindex && rangeindex < len(fields) && fields == typ.fields
+//@   loop 0 invariant forall j mathint :: 0 <= j && j <= rangeindex ==> repkey(stg, fields[j]) != key
